@@ -15,7 +15,7 @@ use super::simutil::*;
 use crate::common::*;
 use crate::sim::*;
 use cfdp_core::daemon::Indication;
-use cfdp_core::pdu::Condition;
+use cfdp_core::pdu::{Condition, Operations, PDUPayload};
 use cfdp_core::transaction::TransactionState;
 use proptest::prelude::*;
 use serde::{Deserialize, Serialize};
@@ -157,6 +157,12 @@ pub fn check_cancel(sc: &Scenario, tr: &Trace) -> Result<&'static str, Fail> {
             .deliveries
             .iter()
             .filter(|d| d.1 == peer && tr.dgrams[d.2].from == who && tr.dgrams[d.2].t >= t_cancel && !tr.dgrams[d.2].corrupted)
+            // the PDU that carries the cancel (what was already in the transport pipeline does not)
+            .filter(|d| match tr.dgrams[d.2].pdu.as_ref().map(|x| &x.payload) {
+                Some(PDUPayload::Directive(Operations::EoF(e))) => e.condition == Condition::CancelReceived,
+                Some(PDUPayload::Directive(Operations::Finished(f))) => f.condition == Condition::CancelReceived,
+                _ => false,
+            })
             .map(|d| d.0)
             .min()
             .unwrap_or(t_cancel);
